@@ -159,6 +159,23 @@ CHECKS["C15"] = dict(
          "256 KiB stacks; the heap bound is type-derived and loose (honest values reach 6% of it, bombs exceed it by orders).",
     note="a timed-out child is inconclusive (termination is C04); the bound definitions are in vf/c15.py and the evidence")
 
+CHECKS["C18"] = dict(
+    level="exploration", design="DESIGN.md §4 C18",
+    technique="property-based testing over Hypothesis-generated CLASS/object-set/frame modules: reference frame encoders (DER/UPER/OER built on the independent reference codecs) for round trip and transcoding, identifier/content mismatch cases judged differentially against the row type decoded alone, C04-style mutation, libFuzzer stage in the thorough tier; ASan/UBSan and the allocation ledger",
+    text="Modules draw the identifier kind (INTEGER, constrained INTEGER, OBJECT IDENTIFIER), 1..12 named row types, WITH SYNTAX "
+         "shapes, extensible and non-extensible sets, @id/@.id relations, OPTIONAL open type, nesting in SEQUENCE / SEQUENCE OF "
+         "and parameterization.  For (row i, value) the reference DER/UPER/OER must decode to the paired type and re-encode "
+         "byte-identically; an identifier without a row, a wrong closing XER wrapper, or content that the row type alone "
+         "rejects must fail cleanly with the ledger balanced.",
+    note="rows asn1c refuses on its own (no WITH SYNTAX, duplicate row types, built-in rows) are counted as generator restrictions; OER is decode-only because OPEN_TYPE_oer.c has no encoder")
+CHECKS["C19"] = dict(
+    level="exploration", design="DESIGN.md §4 C19",
+    technique="randomised concurrent execution of Hypothesis-drawn per-thread scripts (decode/encode in five syntaxes, check, print, compare, copy, free) over generated modules built with ThreadSanitizer; oracle 1: every call's result equals the result of the same script run alone; oracle 2: no TSan report in library or generated code",
+    text="N in {2,4,8,16} threads run deterministic scripts concurrently first (fresh process every six script sets so that "
+         "one-time initialisation races are seen), then alone; return codes, consumed/encoded counts, errno and output hashes "
+         "must agree; ThreadSanitizer halts on the first report.  Option sets default, -fwide-types, -findirect-choice rotate.",
+    note="the harness does not own the scheduler: a race that needs one interleaving and is invisible to TSan (inside uninstrumented libc, behind a libc lock) can be missed; asn_random_fill is excluded from oracle 1 (libc random() is global state by nature)")
+
 NOT_YET = {
 }
 
